@@ -38,6 +38,17 @@ def exprs(depth):
     if depth >= 3:
       yield 'x %s y %s z %s 2' % (op1.strip(), op2.strip(), op1.strip())
       yield 'F(x %s y) %s [z %s 2]' % (op1.strip(), op2.strip(), op1.strip())
+  if depth >= 3:
+    ops3 = ['||', '&&', '==', '<', '!=', ' in ', ' is ', '++', '+', '-', '*', '->']
+    for o1, o2, o3 in itertools.product(ops3, repeat=3):
+      yield 'x %s y %s z %s 2' % (o1.strip(), o2.strip(), o3.strip())
+    for op in BINOPS:
+      for a, b in itertools.product(ATOMS, repeat=2):
+        yield '%s%s%s' % (a, op if op.startswith(' ') else ' ' + op + ' ', b)
+    for a in ATOMS:
+      for b in ATOMS[:10]:
+        yield 'F(%s, [%s, {f: %s}])' % (a, b, a)
+        yield '{a: [%s], b: G(k: %s)}.a' % (a, b)
   for a in ATOMS[:12]:
     yield '(if x > 1 then %s else %s)' % (a, a)
     yield '(if x > 1 then %s else if y then 2 else %s)' % (a, a)
